@@ -331,10 +331,10 @@ def buckets(tier):
     for fam in SINGLE:
         bl.append(Bucket('op:' + fam,
                          (lambda fam=fam: replay_cases(tier, first=fam, families=CHEAP_TAIL, max_len=4, min_len=1)),
-                         prop_replay, {'quick': 20, 'thorough': 300}, nontrivial=_nontrivial, classes=_classes))
+                         prop_replay, {'quick': 100, 'thorough': 500}, nontrivial=_nontrivial, classes=_classes))
     bl.append(Bucket('compose', (lambda: replay_cases(tier, max_len=12, min_len=3)), prop_replay,
-                     {'quick': 40, 'thorough': 1500}, nontrivial=_nontrivial, classes=_classes,
-                     shards={'quick': 12, 'thorough': 16}, weight=4.0))
+                     {'quick': 150, 'thorough': 2000}, nontrivial=_nontrivial, classes=_classes,
+                     shards={'quick': 16, 'thorough': 16}, weight=4.0))
     if tier == 'thorough':
         import os
         bl.append(Bucket('atheris', (lambda: st.just({'stage': 'atheris', 'seconds': 180, 'seed': int(os.environ.get('VERIF_SEED', '1'))})),
